@@ -888,8 +888,8 @@ def retry_loop(body, cfg, cnt, errs):
                 elif c["bound"] == 0:
                     if cnt.target(c, 0) == s and all(cnt.target(c, n) != s for n in (1, 2, 3)):
                         kind = "eof"
-                elif cnt.target(c, c["bound"]) == s and all(cnt.target(c, n) in blocks for n in range(1, c["bound"])):
-                    kind = "full"
+                elif c["bound"] == cnt.q and cnt.target(c, c["bound"]) == s and all(cnt.target(c, n) in blocks for n in range(1, c["bound"])):
+                    kind = "full"       # only the requested length (one quantum) counts as full
             if kind == "other" and s in errs:
                 t = body.blocks[x]["term"]
                 if t["k"] == "switch":
